@@ -125,8 +125,12 @@ class GULP_PairTabulation(PairTabulation_AbstractBase):
 
     :param fp: File object into which data should be written."""
     
+    # Build complete table in memory so that nothing is written to fp if a potential fails to evaluate
+    from io import StringIO
+    sbuild = StringIO()
     for pot in self.potentials:
-      self._write_pot(pot, fp)
+      self._write_pot(pot, sbuild)
+    fp.write(sbuild.getvalue())
 
   def _write_pot(self, pot, fp):
     header_template = u"{speciesA} {speciesB} {cutoff}\n"
